@@ -11,6 +11,8 @@ WRAP = "py_gql.execution.wrappers"
 
 
 def check(prog, run):
+    from . import c08 as _c08
+    _c08.check_gather_bookkeeping(prog, run, "S7")   # = C08.R6: an event's list entries resolved under asyncio come back in their own slots
     sub = prog.get_func(SUB, "subscribe")
     cses = prog.get_func(SUB, "create_source_event_stream")
     ese = prog.get_func(SUB, "execute_subscription_event")
